@@ -1107,3 +1107,58 @@ def r1f(cx):
         cx.violation(dfn, 'control-backslash-not-doubled', "the lexer reads control-backslash only as `\\c\\\\` (a single backslash after \\c is "
                      "IncompleteControlBackslashEscape) but Display prints EscapeUnit::Control(0x1C) through the general `\\c<char>` arm: "
                      "the printed form of $'\\c\\\\' does not parse back", loc=loc)
+
+
+# ---------------------------------------------------------------- R2b: raw source text is printed verbatim
+WRITER_CALLS = re.compile(r'^(core::fmt::Formatter::<\'a>::(write_fmt|write_str|write_char|pad)|core::fmt::Write::(write_fmt|write_str|write_char)|'
+                          r'core::fmt::Arguments::<\'a>::(new|new_const|new_v1|new_v1_formatted|from_str)|'
+                          r'core::fmt::rt::Argument::<\'_>::new_display|<str as core::fmt::Display>::fmt|core::fmt::Display::fmt|'
+                          r'<alloc::rc::Rc<T, A> as core::fmt::Display>::fmt|<alloc::rc::Rc<T, A> as core::ops::deref::Deref>::deref|'
+                          r'<alloc::rc::Rc<T, A> as core::convert::AsRef<T>>::as_ref|core::ops::deref::Deref::deref)$')
+
+
+@RS.rule('C06.R2b', 'K-EFFECT', 'a command substitution keeps its content as raw source text: the printer writes that text verbatim between '
+         '`$(` and `)` (anything derived from it parses back to a different tree)')
+def r2b(cx):
+    F = cx.F
+    fn = [k for k in F.hir if k.endswith('<impl core::fmt::Display for yash_syntax::syntax::TextUnit>::fmt')]
+    cx.require(len(fn) == 1, 'Display for TextUnit not found')
+    h = F.hir_of(fn[0])
+    cx.fn(fn[0])
+    arms = []
+    for m in H.matches_in(h['body']):
+        for arm in m['arms']:
+            if H.pat_matches_value(arm['pat'], ('variant', 'yash_syntax::syntax::TextUnit::CommandSubst', None)) and \
+                    H.pat_variants(arm['pat']) is not None:
+                arms.append(arm)
+    cx.require(len(arms) == 1, 'the CommandSubst arm of Display for TextUnit was not found')
+    arm = arms[0]
+    a = F.adts['yash_syntax::syntax::TextUnit']
+    raw = [f['name'] for v in a['variants'] if v['name'].endswith('CommandSubst') for f in v['fields'] if 'str' in f['ty'] or 'String' in f['ty']]
+    cx.require(raw == ['content'], 'TextUnit::CommandSubst no longer has exactly one raw-text field `content` (found %s)' % raw)
+    binds = {}
+    for n in H.walk(arm['pat']):
+        if n.get('k') == 'pstruct':
+            for fname, fpat in n.get('fields') or []:
+                if fname == 'content':
+                    for b in H.walk(fpat):
+                        if b.get('k') == 'bind':
+                            binds[b['name']] = 'content'
+    cx.require(binds, 'the CommandSubst arm does not bind the `content` field')
+    bad = []
+    for n in H.walk(arm['body']):
+        if n.get('k') in ('call', 'mcall'):
+            nm = n.get('def') or n.get('decl') or ''
+            if not WRITER_CALLS.match(nm) and not n.get('ctor'):
+                bad.append(nm)
+        if n.get('k') in ('if', 'match') and not n.get('exp') and n.get('src') in (None, 'Normal'):
+            bad.append('conditional')
+    lits = [x.get('v') for x in H.walk(arm['body']) if x.get('k') == 'lit' and x.get('t') in ('str', 'bytes', 'char')]
+    uses = [x for x in H.walk(arm['body']) if x.get('k') == 'local' and x.get('name') in binds]
+    cx.site('%s: CommandSubst arm writes literals %s and the field `content` (%d use(s)); other calls: %s'
+            % (fn[0].split('impl_display::')[-1], lits, len(uses), sorted(set(bad)) or 'none'))
+    if bad or not uses:
+        cx.violation(fn[0], 'raw-content-not-verbatim', 'the printer does not write the raw text of a command substitution as it is (%s): the '
+                     'parser stores the exact source between `$(` and `)`, so any re-rendering prints a tree that parses back differently '
+                     '(and `$(` + `(subshell)` even becomes an arithmetic expansion `$((`)' % (', '.join(sorted(set(bad))) or 'content unused'),
+                     loc='%s:%s' % (h['file'], arm['body'].get('line') or h['line']))
